@@ -1,4 +1,8 @@
 ----------------------------- MODULE MC_Totality -----------------------------
 EXTENDS Totality, Json
-Emit == pc = "done" => PrintT(<<"REPLAY", ToJson(inp)>>)
+Emit == pc = "done" \/ (pc = "attachwait" /\ inp.thr = "vfork") => PrintT(<<"REPLAY", ToJson(inp)>>)
+(* the inputs are checked in two parts, so that what is known about targets with a thread in vfork() (finding D22: the wait for
+   its stop has no bound) stays apart from everything else *)
+SpecMain  == Init /\ inp.thr = "stoppable" /\ [][Next]_vars /\ WF_vars(Next)
+SpecVfork == Init /\ inp.thr = "vfork" /\ [][Next]_vars /\ WF_vars(Next)
 =============================================================================
